@@ -129,6 +129,12 @@ func (c *c16Case) run(idx int, rng *rand.Rand) (string, error) {
 		from = "fr%om%%x+tag=" + fmt.Sprint(idx) + "!#$&'*/?^_`{|}~@x.test"
 		to = []string{"user%host" + fmt.Sprint(idx) + "@relay.test", "100%@x.test"}
 	}
+	refuseOne := idx%4 == 2 && c.Prior == ""
+	if refuseOne {
+		srv.BE.Lock()
+		srv.BE.RcptErrs = []error{&smtp.SMTPError{Code: 550, EnhancedCode: smtp.EnhancedCode{5, 1, 1}, Message: "no such user"}}
+		srv.BE.Unlock()
+	}
 	res := make(chan string, 1)
 	go func() {
 		if c.Prior != "" {
@@ -155,6 +161,13 @@ func (c *c16Case) run(idx int, rng *rand.Rand) (string, error) {
 		if err := cl.Mail(from, nil); err != nil {
 			res <- "Mail: " + err.Error()
 			return
+		}
+		if refuseOne {
+			// a recipient the server refuses is not part of the transaction
+			if err := cl.Rcpt("nobody@x.test", nil); err == nil {
+				res <- "Rcpt(nobody@x.test): the server's refusal was not reported"
+				return
+			}
 		}
 		for _, t := range to {
 			if err := cl.Rcpt(t, nil); err != nil {
@@ -231,7 +244,9 @@ func (c *c16Case) run(idx int, rng *rand.Rand) (string, error) {
 		case cl.Name == "Mail":
 			curFrom = cl.From
 		case cl.Name == "Rcpt":
-			curTo = append(curTo, cl.To)
+			if cl.Err == "" {
+				curTo = append(curTo, cl.To)
+			}
 		case cl.Name == "Reset" || cl.Name == "Logout":
 			curFrom, curTo = "", nil
 		case cl.Phase == "begin":
